@@ -62,21 +62,46 @@ def applyDocEdit (n : Node) : DocEdit → Node
   | .addAt p v => match n with | .cont kvs => .cont (addValueAt kvs p v) | x => x
   | .removeAt p => match n with | .cont kvs => .cont (removeAt kvs p) | x => x
 
-def embedded (mode : Mode) (file : Val) (edits : List DocEdit) : Json :=
-  match openDoc mode file with
-  | .ok d =>
-    let cb := edits.foldl applyDocEdit d.cb
+/-- one history on ONE Document handle: (edits, Save, reopen-observe) per round; the handle
+    (document and manifest as left by the previous Save) is carried into the next round -/
+def embeddedRounds (mode : Mode) (d : Doc) : List (List DocEdit) → List Json
+  | [] => []
+  | es :: rest =>
+    let cb := es.foldl applyDocEdit d.cb
     let d1 : Doc := ⟨cb, d.m⟩
     match docSave mode d1 with
     | .ok (d2, file') =>
       let re : Json := match openDoc mode file' with
         | .ok d3 => Json.mkObj (("o", "ok") :: ("doc", Wire.nodeToJson d3.cb) :: itemsJson d3.m)
         | o => Json.mkObj [("o", .str o.tag)]
-      Json.mkObj ([("o", "ok"), ("doc0", Wire.nodeToJson d.cb), ("edited", Wire.nodeToJson cb),
-        ("before", Json.mkObj (itemsJson d.m)), ("save", "ok"), ("after", Json.mkObj (itemsJson d2.m)),
-        ("file", Wire.valToJson file'), ("reopen", re)])
-    | o => Json.mkObj [("o", "ok"), ("doc0", Wire.nodeToJson d.cb), ("edited", Wire.nodeToJson cb),
-        ("save", .str o.tag)]
+      Json.mkObj [("edited", Wire.nodeToJson cb), ("save", "ok"),
+        ("file", Wire.valToJson file'), ("reopen", re)] :: embeddedRounds mode d2 rest
+    | o => [Json.mkObj [("edited", Wire.nodeToJson cb), ("save", .str o.tag)]]
+
+def embedded (mode : Mode) (file : Val) (rounds : List (List DocEdit)) : Json :=
+  match openDoc mode file with
+  | .ok d =>
+    Json.mkObj [("o", "ok"), ("doc0", Wire.nodeToJson d.cb), ("before", Json.mkObj (itemsJson d.m)),
+      ("rounds", .arr (embeddedRounds mode d rounds).toArray)]
+  | o => Json.mkObj [("o", .str o.tag)]
+
+/-- one history on ONE loaded manifest: (edits, WriteTo, reload-observe) per round; the manifest
+    as mutated by WriteTo is carried into the next round -/
+def manifestRounds (m : Manifest) : List (List Edit) → List Json
+  | [] => []
+  | es :: rest =>
+    let m1 := applyEdits m es
+    let r := writeTo m1
+    let re : Json := match load r.2 with
+      | .ok m2 => Json.mkObj (("o", "ok") :: itemsJson m2)
+      | o => Json.mkObj [("o", .str o.tag)]
+    Json.mkObj [("edited", Json.mkObj (itemsJson m1)), ("saved", Wire.valToJson r.2), ("reload", re)]
+      :: manifestRounds r.1 rest
+
+def manifestHist (file : Val) (rounds : List (List Edit)) : Json :=
+  match load file with
+  | .ok m => Json.mkObj [("o", "ok"), ("loaded", Json.mkObj (itemsJson m)),
+      ("rounds", .arr (manifestRounds m rounds).toArray)]
   | o => Json.mkObj [("o", .str o.tag)]
 
 def handle : Wire.Handler := fun op a => do
@@ -95,6 +120,13 @@ def handle : Wire.Handler := fun op a => do
     let file ← Wire.getVal a "doc"
     let edits ← (← Wire.getArr a "edits").mapM editOfJson
     pure (loadSaveReload file edits)
+  | "manifestHist" =>
+    let file ← Wire.getVal a "doc"
+    let rounds ← (← Wire.getArr a "rounds").mapM (fun r => do
+      match r with
+      | .arr es => es.toList.mapM editOfJson
+      | _ => throw "C17: a round is a list of edits")
+    pure (manifestHist file rounds)
   | "load" =>
     let file ← Wire.getVal a "doc"
     match load file with
@@ -103,7 +135,10 @@ def handle : Wire.Handler := fun op a => do
   | "embedded" =>
     let file ← Wire.getVal a "file"
     let modeS ← Wire.getStr a "mode"
-    let edits ← (← Wire.getArr a "edits").mapM docEditOfJson
+    let rounds ← (← Wire.getArr a "rounds").mapM (fun r => do
+      match r with
+      | .arr es => es.toList.mapM docEditOfJson
+      | _ => throw "C17: a round is a list of edits")
     let mode : Mode ← match modeS with
       | "props" => pure Mode.props
       | _ => do
@@ -113,7 +148,7 @@ def handle : Wire.Handler := fun op a => do
           let t ← Wire.getStr e "text"
           pure (n, t))
         pure (Mode.text (tableCodec tbl) item)
-    pure (embedded mode file edits)
+    pure (embedded mode file rounds)
   | "create" =>
     pure (Wire.valToJson (createInit (← Wire.getStr a "kind") (← Wire.getStr a "name") (← Wire.getStr a "ns")))
   | _ => throw s!"C17: unknown op {op}"
